@@ -279,6 +279,22 @@ def oracle_check(case, rend):
     return None
 
 
+def check_collection(case, rend, root, lc, mode, out):
+    """LinesCollection: one entry per loaded file, keyed by its path, holding the file's lines."""
+    ref0 = next(r for r in case["ref"] if r["it"] == 0)
+    want = {str(Path(root, rel)) for rel in rend["files"]}
+    got = {str(p) for p in lc.keys()}
+    if got != want:
+        out.v(ref0, "collection", mode, "none", f"lines collection keys {sorted(_rel(g, root) for g in got)}, loaded files {sorted(rend['files'])}")
+        return
+    for rel, data in rend["files"].items():
+        p = Path(root, rel)
+        if case["brk"] and rel == rend["main"]:
+            continue
+        if p not in lc or dict(lc.items())[p] != lc[p] or lc[p] != oracle.pylines(data) or Path(root, "nowhere.py") in lc:
+            out.v(ref0, "collection", mode, "none", f"lines collection entry of {rel} is not the file's lines")
+
+
 def check_json(case, mod, live, out):
     g = griffe_mod()
     ref = {(r["it"], r["nm"]): r for r in case["ref"]}
@@ -409,6 +425,7 @@ def check_case(case: dict, variant: int = 0, modes=("load",)) -> dict:
             if mod is not None:
                 res["modes"].append(mode)
                 live = compare_tree(case, rend, root, mod, loader.lines_collection, mode, out)
+                check_collection(case, rend, root, loader.lines_collection, mode, out)
                 if not case.get("twin"):
                     compare_alias_targets(case, mod, mode, out)
                 if "json" in modes:
@@ -430,13 +447,16 @@ def check_case(case: dict, variant: int = 0, modes=("load",)) -> dict:
 
 
 def check_chunk(chunk: list) -> list:
-    """Pool entry: [(idx, case, variant, modes)] -> [(idx, result)]."""
+    """Pool entry: [(key, case, variant, modes)] -> [(key, result)]; the case travels back only when it is needed."""
     out = []
-    for idx, case, variant, modes in chunk:
+    for key, case, variant, modes in chunk:
         try:
-            out.append((idx, check_case(case, variant, modes)))
+            res = check_case(case, variant, modes)
         except Exception as exc:  # noqa: BLE001
             import traceback  # noqa: PLC0415
 
-            out.append((idx, {"viol": [], "drift": 0, "fatal": f"harness crashed: {exc!r}\n{traceback.format_exc()[-800:]}", "objects": 0, "keys": [], "inspected": 0, "modes": []}))
+            res = {"viol": [], "drift": 0, "fatal": f"harness crashed: {exc!r}\n{traceback.format_exc()[-800:]}", "objects": 0, "keys": [], "inspected": 0, "modes": []}
+        if res["viol"] or res["fatal"] or (res["objects"] > 3 and key % 997 == 0):
+            res["case"] = case
+        out.append((key, res))
     return out
